@@ -73,6 +73,7 @@ const (
 	vpPollCloseMsg  = 49
 	vpPollTrigAdd   = 52
 	vpPollTrigMsg   = 53
+	vpPollFetched   = 54
 	vpFdClose       = 50
 	vpFdOpen        = 51
 	vpSrvAccept     = 60
